@@ -41,6 +41,28 @@ fn main() {
     let cdir = repo.join("c");
     println!("cargo::rustc-env=VERIF_B3SUM_MAIN={}", repo.join("b3sum/src/main.rs").display());
     println!("cargo::rerun-if-changed={}", repo.join("b3sum/src/main.rs").display());
+    // The in-process parser family (c13-parse) calls private items of b3sum's main.rs. They are implementation
+    // details: when a refactoring renames or reshapes them the harness must still build (the process-level
+    // families remain), so the wrappers are compiled only if the expected items are there.
+    println!("cargo::rustc-check-cfg=cfg(b3sum_private_api)");
+    let main_rs = std::fs::read_to_string(repo.join("b3sum/src/main.rs")).unwrap_or_default();
+    let flat: String = main_rs.split_whitespace().collect::<Vec<_>>().join(" ");
+    let not_test_only = |sig: &str| flat.match_indices(sig).any(|(i, _)| !flat[..i].trim_end().ends_with("#[cfg(test)]"));
+    let has_fields = |ty: &str, fields: &[&str]| {
+        flat.find(&format!("struct {ty} {{")).map_or(false, |i| {
+            let body = &flat[i..flat[i..].find('}').map_or(flat.len(), |e| i + e)];
+            fields.iter().all(|f| body.contains(f))
+        })
+    };
+    let ok = (not_test_only("fn parse_check_line(mut line: &str) -> anyhow::Result<ParsedCheckLine>") || not_test_only("fn parse_check_line(line: &str) -> anyhow::Result<ParsedCheckLine>"))
+        && not_test_only("fn filepath_to_string(filepath: &Path) -> FilepathString")
+        && has_fields("ParsedCheckLine", &["file_string: String", "is_escaped: bool", "file_path: PathBuf", "expected_hash: blake3::Hash"])
+        && has_fields("FilepathString", &["filepath_string: String", "is_escaped: bool"]);
+    if ok {
+        println!("cargo::rustc-cfg=b3sum_private_api");
+    } else {
+        println!("cargo::warning=b3sum's private parser items were not found in the expected shape: the in-process c13-parse family is skipped");
+    }
     println!("cargo::rerun-if-env-changed=VERIF_REPO");
     for f in std::fs::read_dir(&cdir).expect("c dir") {
         println!("cargo::rerun-if-changed={}", f.unwrap().path().display());
